@@ -178,4 +178,45 @@ theorem xmlScan_close_mismatch (f : Nat) (rest rest' : List Char) (t : Tag) (n :
     xmlScan (f + 1) ('<' :: rest) ((n, sc) :: st) seen = false :=
   Formats.xmlScan_close_mismatch f rest rest' t n sc st seen hp hk hn
 
+/-! ## reST, tree level: section underlines and link targets -/
+
+/-- the nodes of `t` labelled `sym` are the subtrees of `t` carrying that label -/
+theorem mem_nodesOf_iff (t : DTree) (sym : String) (n : DTree) :
+    n ∈ nodesOf t sym ↔ ∃ p, t.get p = some n ∧ n.sym = sym :=
+  Formats.mem_nodesOf_iff t sym n
+
+/-- reST underline: every `<section-title>` node has three children (title, line break, underline),
+the title is non-empty and the underline is at least as long as the title -/
+theorem restUnderlineOk_iff (g : Grammar) (t : DTree) :
+    restUnderlineOk g t = true ↔
+      ∀ n ∈ nodesOf t "<section-title>", ∃ ti sep ul, n.kids = [ti, sep, ul] ∧
+        0 < (ti.yieldC g).length ∧ (ti.yieldC g).length ≤ (ul.yieldC g).length :=
+  Formats.restUnderlineOk_iff g t
+
+/-- the identifiers below the `sym` nodes: the strings of the `<id>` nodes inside a `sym` node -/
+theorem mem_idsBelow_iff (g : Grammar) (t : DTree) (sym : String) (s : List Char) :
+    s ∈ idsBelow g t sym ↔ ∃ n ∈ nodesOf t sym, ∃ i ∈ nodesOf n "<id>", i.yieldC g = s :=
+  Formats.mem_idsBelow_iff g t sym s
+
+/-- reST link targets: no identifier is defined by two labels -/
+theorem restLabelsUnique_iff (g : Grammar) (t : DTree) :
+    restLabelsUnique g t = true ↔ (idsBelow g t "<label>").Nodup :=
+  Formats.restLabelsUnique_iff g t
+
+/-- reST references: every referenced identifier is a defined link target -/
+theorem restRefsDefined_iff (g : Grammar) (t : DTree) :
+    restRefsDefined g t = true ↔
+      ∀ s, (s ∈ idsBelow g t "<internal_reference>" ∨ s ∈ idsBelow g t "<internal_reference_nospace>") →
+        s ∈ idsBelow g t "<label>" :=
+  Formats.restRefsDefined_iff g t
+
+/-- a title "ab" underlined by "==" is accepted, by "=" rejected; duplicate labels and an undefined
+reference are rejected -/
+example : restUnderlineOk exG (exTitle "==") = true ∧ restUnderlineOk exG (exTitle "=") = false := by
+  decide +kernel
+example : restLabelsUnique exG (exDoc "x" "y" "x") = true ∧ restLabelsUnique exG (exDoc "x" "x" "x") = false := by
+  decide +kernel
+example : restRefsDefined exG (exDoc "x" "y" "y") = true ∧ restRefsDefined exG (exDoc "x" "y" "z") = false := by
+  decide +kernel
+
 end IslaVerif.C21
